@@ -48,6 +48,7 @@ type vCardScript struct {
 	errStyle             int
 	mixPlan              []vMixChange
 	hasGap               bool
+	earlyGap             bool // the first gap lies in one of the first three reads
 }
 
 type vMixChange struct {
@@ -339,6 +340,10 @@ func vGenCardScript(c *vCase, withGap bool) *vCardScript {
 		wholeOnly := false
 		for g := 0; g < ngaps; g++ {
 			i := vRange(r, 8, nsteps-6)
+			if g == 0 && vChance(r, 0.25) {
+				i = 1 + r.Intn(3) // bytes are lost before the run's first block (call 0 is the start-up alignment's own read)
+				s.earlyGap = true
+			}
 			st := &s.steps[i]
 			if st.add < 5*fs {
 				st.add += 5 * fs
@@ -823,6 +828,9 @@ func vCheckLancero(c *vCase, s *vCardScript, card *vCard, tap *vLanTap, scales [
 					sawLoss = true
 					break
 				}
+			}
+			if ft.blocksSeen == 0 && reported {
+				c.Cov("losses_before_the_first_block_reported", 1)
 			}
 			if sawLoss && !reported {
 				c.Violate("c04:loss-not-reported", "%d bytes (not a whole number of %d-byte frames) vanished at call %d; frames are missing between two blocks but the block after the loss reports droppedFrames=0\n%s",
